@@ -144,11 +144,13 @@ MANIFEST = {
     "text": "Proof: per fork, a Boolean checker over the 256-row table regenerated from the compiled crate on every run is "
             "evaluated by the Lean kernel (decide +kernel) and lifted to the Prop-level statement (byte/mnemonic round trips, "
             "size = 1 + immediate length, from_slice accepts exactly slices of the instruction's size, metadata = EVM "
-            "specification, defined only if the fork has it); push_for minimality is a theorem for every u128. The table is a "
+            "specification, defined only if the fork has it); push_for minimality is a theorem for every u128; FromStr — the one conversion with an infinite domain — accepts exactly the 256 table "
+            "mnemonics and nothing else (C17_from_str: the string literals of the generated `match mnemonic {..}` read from this build's "
+            "OUT_DIR equal the table's mnemonic column, its wildcard arm returns the error). The table is a "
             "finite object, so kernel evaluation over all of it is a proof, and regeneration makes it a proof about the code as it is now.",
     "note": "Trusted: Lean kernel; hand-transcribed EVM per-fork specification (Ops/Spec.lean); translator etk-h dump-ops + "
             "gen_optable.py (reads the tables through the public API of the compiled crate); Ops/Model.lean for from_slice/push/"
-            "push_for/upsize, tied by an exhaustive correspondence run (3 x 256 x 40 slices). FromStr rejecting every non-mnemonic "
-            "is sampled, not proved.",
+            "push_for/upsize, tied by an exhaustive correspondence run (3 x 256 x 40 slices); the FromStr arms are read with a regular "
+            "expression from the generated Rust (a change of that code's form stops the translator, which is reported as a broken tie).",
     "technique": "Lean 4 kernel-evaluated table theorems over regenerated data + arithmetic proof + exhaustive differential run",
 }
